@@ -2,9 +2,31 @@
 From Coq Require Import Reals List Lra.
 From V.base Require Import Num.
 From V.model Require Import EwLsq.
-From V.proofs Require Import EwLsqProofs.
+From V.gen Require Import EwLsqGen.
+From V.proofs Require Import EwLsqProofs EwLsqGenProofs.
 Import ListNotations.
 Local Open Scope R_scope.
+
+(* hence: what the CURRENT code returns is (10^a_hat, 1/b_hat) of the weighted regression line that minimises the weighted squared error of log10 x = a + b p* over all lines, for every positive weight vector *)
+Theorem C13_generated_code_optimal :
+  forall (delta : R) (x p w : list R),
+       length p = length x ->
+       length w = length x ->
+       let l := obs_list delta x p w in
+       l <> [] ->
+       Forall (fun o : obsR => 0 < Wr o) l ->
+       0 < Dg l ->
+       exists a_hat b_hat : R,
+         ew_estimate_alpha_beta RN delta x p w = (Rpower 10 a_hat, 1 / b_hat) /\
+         a_hat = ahat l /\ b_hat = bhat l /\ (forall a b : R, SSE a_hat b_hat l <= SSE a b l).
+Proof. exact (@ew_generated_optimal). Qed.
+
+(* the array code of _estimate_alpha_beta REGENERATED from distributions.py on every run (tools/py2v.py, numpy vector subset) computes exactly the hand model on the observations (w_i, p*_i, x*_i) of the non-zero data *)
+Theorem C13_generated_code_is_model :
+  forall (delta : R) (x p w : list R),
+       length p = length x ->
+       length w = length x -> ew_estimate_alpha_beta RN delta x p w = alpha_beta RN (obs_list delta x p w).
+Proof. exact (@ew_generated_is_model). Qed.
 
 (* what _estimate_alpha_beta computes (hand model, weights normalised where used) is the general weighted regression (ahat, bhat) of the ORIGINAL weights, and beta = 1/b_hat *)
 Theorem C13_estimate_is_weighted_regression :
@@ -77,6 +99,8 @@ Proof. exact (@kw_none_equal). Qed.
 Example C13_nonvacuous : let l := [(2, 0, 1); (2, 1, 3); (2, 2, 5)] in 0 < Dg l /\ Forall (fun o => 0 < Wr o) l /\ bhat l = 2.
 Proof. cbv [Dg bhat S1 Spp Sp Spx Sx sumf fold_right W P X fst snd]. split; [lra|]. split; [repeat constructor; cbn; lra|]. field. Qed.
 
+Print Assumptions C13_generated_code_optimal.
+Print Assumptions C13_generated_code_is_model.
 Print Assumptions C13_estimate_is_weighted_regression.
 Print Assumptions C13_estimate_optimal.
 Print Assumptions C13_regression_optimal.
